@@ -263,14 +263,39 @@ pub fn run(ctx: &Ctx, rep: &mut Report) {
                     words.extend(base.iter().map(|x| *x as u64));
                     match confirm(judge, Case::new("setter-word", &words)) {
                         Some(v) => acc.violate(v),
-                        None => monitor::machinery_fail("C19 setter mismatch not reproduced"),
+                        None => super::unreproduced("C19 setter mismatch not reproduced"),
                     }
                 }
             };
             if thorough {
+                // fast path: one guard per block of 2^16 words; any discrepancy re-runs the block word by word
                 let lo = chunk << 26;
-                for x in lo..lo + (1 << 26) {
-                    one(x as u32, &mut acc);
+                let mut blk = lo;
+                while blk < lo + (1 << 26) {
+                    let r = guard(|| {
+                        let mut bad = false;
+                        for x in blk..blk + (1 << 16) {
+                            let w = x as u32;
+                            let y = h.set(slot, w);
+                            let mut out = [0u32; 7];
+                            y.write_to(&mut out[..n]);
+                            for i in 0..n {
+                                bad |= out[i] != if i == slot { w } else { base[i] };
+                            }
+                            bad |= y.get(slot) != w;
+                        }
+                        bad
+                    });
+                    if matches!(r, Ok(false)) {
+                        acc.cases += 1 << 16;
+                        acc.calls += 1 << 16;
+                        acc.nontrivial += 1 << 16;
+                    } else {
+                        for x in blk..blk + (1 << 16) {
+                            one(x as u32, &mut acc);
+                        }
+                    }
+                    blk += 1 << 16;
                 }
             } else {
                 for x in 0..=0xFFFFu32 {
